@@ -680,11 +680,14 @@ fn run_history<T: Desc>(
     iteration: u64,
     steps: usize,
     selftest: u32,
+    thorough: bool,
 ) where
     Height<T>: DatabaseHeight,
 {
     let mut rng = rng_for(shard_seed, &[vcommon::tag(T::NAME), iteration]);
-    let use_rocks = chance(&mut rng, 40);
+    // RocksDB opens are expensive (an fsync per column family and per reopen)
+    // deterministic share: every 10th (quick) / 5th (thorough) history per database
+    let use_rocks = (iteration as usize + shard) % if thorough { 5 } else { 10 } == 0;
     let policies = [
         StateRewindPolicy::NoRewind,
         StateRewindPolicy::RewindFullRange,
@@ -711,7 +714,7 @@ fn run_history<T: Desc>(
         report,
         local: Local::default(),
         selftest,
-        replay: json!({"shard": shard, "seed": shard_seed, "iteration": iteration, "tier": args.tier_str(), "db": T::NAME, "steps": steps, "backend": backend_name}),
+        replay: json!({"shard": shard, "seed": shard_seed, "iteration": iteration, "tier": if thorough { "thorough" } else { "quick" }, "db": T::NAME, "steps": steps, "backend": backend_name}),
         ops: Vec::new(),
         db_name: T::NAME,
     };
@@ -738,7 +741,7 @@ fn run_history<T: Desc>(
 
     for step in 0..steps {
         // reopen now and then
-        if step > 0 && chance(&mut rng, 12) {
+        if step > 0 && chance(&mut rng, if !use_rocks { 12 } else if thorough { 5 } else { 3 }) {
             drop(db);
             if let Backing::Rocks(_, policy) = &mut backing {
                 if chance(&mut rng, 50) {
@@ -907,7 +910,15 @@ fn run_history<T: Desc>(
             }
             Err(e) => report.inconclusive(format!("reading the metadata failed: {e}")),
         }
-        match catch(|| AtomicView::latest_view(&db).map(|v| v.metadata().map(|h| h.as_u64()))) {
+        // (MemoryStore::latest_view copies the whole store: sampled)
+        let check_view = chance(&mut rng, 30);
+        match catch(|| {
+            if check_view {
+                AtomicView::latest_view(&db).map(|v| v.metadata().map(|h| h.as_u64()))
+            } else {
+                Ok(prev)
+            }
+        }) {
             Ok(Ok(h)) => {
                 if h != prev {
                     let d = format!(
@@ -979,13 +990,14 @@ fn run_history<T: Desc>(
     hist.local.flush(report);
 }
 
-fn run_one(args: &Args, report: &Report, db: &str, shard: usize, shard_seed: u64, it: u64, steps: usize, selftest: u32) {
+#[allow(clippy::too_many_arguments)]
+fn run_one(args: &Args, report: &Report, db: &str, shard: usize, shard_seed: u64, it: u64, steps: usize, selftest: u32, thorough: bool) {
     match db {
-        "on_chain" => run_history::<OnChainDesc>(args, report, shard, shard_seed, it, steps, selftest),
-        "off_chain" => run_history::<OffChainDesc>(args, report, shard, shard_seed, it, steps, selftest),
-        "relayer" => run_history::<RelayerDesc>(args, report, shard, shard_seed, it, steps, selftest),
-        "gas_price" => run_history::<GasPriceDesc>(args, report, shard, shard_seed, it, steps, selftest),
-        _ => run_history::<CompressionDesc>(args, report, shard, shard_seed, it, steps, selftest),
+        "on_chain" => run_history::<OnChainDesc>(args, report, shard, shard_seed, it, steps, selftest, thorough),
+        "off_chain" => run_history::<OffChainDesc>(args, report, shard, shard_seed, it, steps, selftest, thorough),
+        "relayer" => run_history::<RelayerDesc>(args, report, shard, shard_seed, it, steps, selftest, thorough),
+        "gas_price" => run_history::<GasPriceDesc>(args, report, shard, shard_seed, it, steps, selftest, thorough),
+        _ => run_history::<CompressionDesc>(args, report, shard, shard_seed, it, steps, selftest, thorough),
     }
 }
 
@@ -999,18 +1011,24 @@ pub fn run(args: &Args, report: &Report) {
         let shard = r["shard"].as_u64().unwrap_or(0) as usize;
         let steps = r["steps"].as_u64().unwrap_or(30) as usize;
         let db = r["db"].as_str().unwrap_or("on_chain").to_string();
-        run_one(args, report, &db, shard, shard_seed, iteration, steps, selftest);
+        let thorough = r["tier"].as_str() == Some("thorough");
+        run_one(args, report, &db, shard, shard_seed, iteration, steps, selftest, thorough);
         finish(args, report, selftest, true);
         return;
     }
-    let steps: usize = args.by_tier(30, 40);
-    let per_shard: u64 = args.by_tier(24, 400);
+    let steps: usize = args.by_tier(60, 60);
+    let per_shard: u64 = args
+        .extra
+        .get("per-shard")
+        .and_then(|s| s.parse().ok())
+        .unwrap_or(args.by_tier(10, 60));
     let args2 = args.clone();
     let report2 = report.clone();
+    let thorough = args.is_thorough();
     run_shards(report, args, 16, move |shard, shard_seed| {
         for it in 0..per_shard {
             for db in DBS {
-                run_one(&args2, &report2, db, shard, shard_seed, it, steps, selftest);
+                run_one(&args2, &report2, db, shard, shard_seed, it, steps, selftest, thorough);
             }
         }
     });
@@ -1021,15 +1039,15 @@ fn finish(args: &Args, report: &Report, selftest: u32, replay: bool) {
     if !replay {
         let t = |q: u64, th: u64| args.by_tier(q, th);
         for db in DBS {
-            report.require(&format!("{db}.commits.next.accepted"), t(1500, 25_000));
-            report.require(&format!("{db}.commits.after_first_height"), t(4000, 60_000));
-            report.require(&format!("{db}.rejections.MultipleHeightsInCommit"), t(300, 5000));
-            report.require(&format!("{db}.rejections.HeightsAreNotLinked"), t(600, 10_000));
-            report.require(&format!("{db}.rejections.NewHeightIsNotSet"), t(300, 5000));
-            report.require(&format!("{db}.commits.list"), t(1500, 25_000));
-            report.require(&format!("{db}.reopens"), t(400, 6000));
-            report.require(&format!("{db}.histories.rocksdb"), t(60, 1000));
-            report.require(&format!("{db}.histories.memory"), t(100, 1500));
+            report.require(&format!("{db}.commits.next.accepted"), t(1000, 6000));
+            report.require(&format!("{db}.commits.after_first_height"), t(2500, 15_000));
+            report.require(&format!("{db}.rejections.MultipleHeightsInCommit"), t(250, 1500));
+            report.require(&format!("{db}.rejections.HeightsAreNotLinked"), t(700, 4000));
+            report.require(&format!("{db}.rejections.NewHeightIsNotSet"), t(300, 1800));
+            report.require(&format!("{db}.commits.list"), t(1000, 6000));
+            report.require(&format!("{db}.reopens"), t(250, 1500));
+            report.require(&format!("{db}.histories.rocksdb"), t(6, 100));
+            report.require(&format!("{db}.histories.memory"), t(40, 400));
         }
     }
     if selftest > 0 && report.violation_count() == 0 {
